@@ -877,4 +877,203 @@ theorem ent_no_panic (idx : Nat) (s : Bytes) (i : Nat) (p : String) (c : Nat) :
       · exact extract_ne_panic _ _ _ _ _ h
       · split at h <;> simp at h
 
+
+theorem entryAt_short (s : Bytes) (i : Nat) (h : ¬ i + 20 ≤ s.length) : entryAt s i = none := by
+  unfold entryAt entryForm
+  have : ¬ ((s.drop i).take 20).length = 20 := by simp; omega
+  rw [if_neg (fun hc => this hc.1)]
+
+
+/-! ### numbers and white space in a subsection header -/
+
+
+/-- stop condition of `parse_allowed_bytes`: end of buffer or a byte that is not allowed -/
+def stopsAt (p : UInt8 → Bool) (r : Bytes) : Prop := ∀ b, r.head? = some b → p b = false
+
+theorem takeWhile_prefix (p : UInt8 → Bool) : ∀ (pre r : Bytes), pre.all p = true → stopsAt p r →
+    (pre ++ r).takeWhile p = pre := by
+  intro pre
+  induction pre with
+  | nil =>
+    intro r _ hr
+    cases r with
+    | nil => rfl
+    | cons b t => simp [List.takeWhile, hr b rfl]
+  | cons a t ih =>
+    intro r ha hr
+    simp only [List.all_cons, Bool.and_eq_true] at ha
+    simp [List.takeWhile, ha.1, ih r ha.2 hr]
+
+theorem parseAllowed_prefix (p : UInt8 → Bool) (s : Bytes) (c : Nat) (pre r : Bytes)
+    (hs : s.drop c = pre ++ r) (hp : pre.all p = true) (hr : stopsAt p r) :
+    parseAllowed p s c = (pre, c + pre.length) := by
+  simp [parseAllowed, hs, takeWhile_prefix p pre r hp hr]
+
+theorem head_of_drop {s : Bytes} {c : Nat} {r : Bytes} (h : s.drop c = r) : s[c]? = r.head? := by
+  cases r with
+  | nil =>
+    have : s.length ≤ c := by simpa using h
+    simp [List.getElem?_eq_none this]
+  | cons b t => simpa using getElem?_of_drop h
+
+/-- the digit loop of `IntegerP` over written digits -/
+theorem accDigits_padDec (w : Nat) : ∀ (v n : Nat), v < 10 ^ w → n * 10 ^ w + v ≤ i64Max →
+    accDigits (padDec w v) n = some (n * 10 ^ w + v) := by
+  induction w with
+  | zero => intro v n hv _; simp at hv; simp [padDec, encBase, accDigits, hv]
+  | succ w ih =>
+    intro v n hv hlim
+    simp only [padDec, encBase, accDigits]
+    have htop := top_digit_toNat 10 48 w v (by omega) hv
+    have harith := step_arith 10 (10 ^ w) n v
+    have hP : 0 < 10 ^ w := Nat.pow_pos (by omega)
+    have hpow : 10 ^ (w + 1) = 10 * 10 ^ w := by rw [Nat.pow_succ, Nat.mul_comm]
+    rw [htop, Nat.add_sub_cancel_left]
+    have hle : n * 10 + v / 10 ^ w ≤ (n * 10 + v / 10 ^ w) * 10 ^ w := Nat.le_mul_of_pos_right _ hP
+    have h2' : n * 10 + v / 10 ^ w ≤ i64Max := by
+      rw [hpow] at hlim
+      exact Nat.le_trans hle (Nat.le_trans (Nat.le_add_right _ _) (harith ▸ hlim))
+    have h1 : ¬ n * 10 > i64Max := Nat.not_lt.mpr (Nat.le_trans (Nat.le_add_right _ _) h2')
+    have h2 : ¬ n * 10 + v / 10 ^ w > i64Max := Nat.not_lt.mpr h2'
+    simp only [h1, h2, if_false]
+    have := ih (v % 10 ^ w) (n * 10 + v / 10 ^ w) (mod_pow_lt 10 w v (by omega)) (by rw [harith, ← hpow]; exact hlim)
+    simp only [padDec] at this
+    rw [this, harith, ← hpow]
+
+theorem padDec_head (w v : Nat) (hw : 0 < w) : ∃ d t, padDec w v = d :: t ∧ Xref.isDigit d = true := by
+  cases w with
+  | zero => omega
+  | succ w =>
+    refine ⟨_, _, rfl, ?_⟩
+    have := all_isDigit_padDec (w + 1) v
+    simp only [padDec, encBase, List.all_cons, Bool.and_eq_true] at this
+    exact this.1
+
+/-- `IntegerP` reads back a written (zero-padded) number that is followed by a non-digit -/
+theorem integerP_padDec (w v : Nat) (s : Bytes) (c : Nat) (r : Bytes)
+    (hs : s.drop c = padDec w v ++ r) (hw : 0 < w) (hv : v < 10 ^ w) (hlim : v ≤ i64Max)
+    (hr : stopsAt Xref.isDigit r) :
+    integerP s c = (.ok ⟨(v : Int), c, c + w⟩, c + w) := by
+  obtain ⟨d, t, hd, hdig⟩ := padDec_head w v hw
+  have h0 : s[c]? = some d := by
+    have := head_of_drop hs; rw [hd] at this; simpa using this
+  have hd45 : ¬ d = 45 := by intro h; subst h; revert hdig; decide
+  have hd43 : ¬ d = 43 := by intro h; subst h; revert hdig; decide
+  have hpa := parseAllowed_prefix Xref.isDigit s c (padDec w v) r hs (all_isDigit_padDec w v) hr
+  have hne : (padDec w v).isEmpty = false := by rw [hd]; rfl
+  have hacc := accDigits_padDec w v 0 hv (by omega)
+  simp only [Nat.zero_mul, Nat.zero_add] at hacc
+  unfold integerP
+  simp [h0, hd45, hd43, hpa, hne, hacc, padDec_length]
+
+
+theorem isBlank_ws (b : UInt8) (h : XrefSpec.isBlank b = true) : Xref.isWsNoEol b = true := by
+  simp only [XrefSpec.isBlank, Bool.or_eq_true, beq_iff_eq] at h
+  simp only [Xref.isWsNoEol, Bool.or_eq_true, beq_iff_eq]
+  rcases h with ((h | h) | h) | h <;> simp [h]
+
+theorem all_imp {p q : UInt8 → Bool} (l : Bytes) (h : ∀ b, p b = true → q b = true) (hl : l.all p = true) :
+    l.all q = true := by
+  simp only [List.all_eq_true] at *
+  exact fun x hx => h x (hl x hx)
+
+theorem blank_getLast_ne_cr (l : Bytes) (h : l.all XrefSpec.isBlank = true) : (l.getLast? == some 13) = false := by
+  cases hg : l.getLast? with
+  | none => rfl
+  | some b =>
+    have hm : b ∈ l := List.mem_of_getLast? hg
+    have := (List.all_eq_true.mp h) b hm
+    have hb : ¬ b = 13 := by intro h13; subst h13; revert this; decide
+    simp [hb]
+
+/-- `WhitespaceNoEOL(true)` over blanks (no CR among them) followed by a non-blank -/
+theorem wsNoEol_blanks (s : Bytes) (c : Nat) (lead r : Bytes) (hs : s.drop c = lead ++ r)
+    (hl : lead.all XrefSpec.isBlank = true) (hr : stopsAt Xref.isWsNoEol r) :
+    wsNoEol true s c = (.ok (), c + lead.length) := by
+  have hpa := parseAllowed_prefix Xref.isWsNoEol s c lead r hs (all_imp lead isBlank_ws hl) hr
+  unfold wsNoEol
+  simp [hpa, blank_getLast_ne_cr lead hl]
+
+/-- the `WhitespaceEOL` loop over white space followed by something that is neither white space
+    nor a comment -/
+theorem wsEol_ws (s : Bytes) (c : Nat) (pre r : Bytes) (hs : s.drop c = pre ++ r)
+    (hp : pre.all Xref.isWsEol = true) (hne : pre ≠ [])
+    (hr : ∀ b, r.head? = some b → Xref.isWsEol b = false ∧ b ≠ 37) :
+    wsEol false s c = (.ok (), c + pre.length) := by
+  have hpa := parseAllowed_prefix Xref.isWsEol s c pre r hs hp (fun b hb => (hr b hb).1)
+  have hnext : s[c + pre.length]? = r.head? := head_of_drop (drop_step hs)
+  have h37 : (s[c + pre.length]? == some 37) = false := by
+    rw [hnext]
+    cases hh : r.head? with
+    | none => rfl
+    | some b => have := (hr b hh).2; simp [this]
+  have hemp : pre.isEmpty = false := by cases pre <;> simp_all
+  unfold wsEol
+  have : s.length - c + 1 = (s.length - c) + 1 := rfl
+  rw [this]
+  simp [wsEolLoop, hpa, h37, hemp]
+
+theorem isWs_eq : XrefSpec.isWs = Xref.isWsEol := by
+  funext b; rfl
+
+
+
+theorem encEntry_length (e : TEnt) : (encEntry e).length = 20 := by
+  cases h : e.eol <;> simp [encEntry, padDec_length, Eol.bytes, h]
+
+theorem entryForm_enc (e : TEnt) (hwf : e.wf) : entryForm (encEntry e) = some (e.info, e.gen, e.inuse) := by
+  obtain ⟨hi, hg⟩ := hwf
+  have hAall := all_isDigit_padDec 10 e.info
+  have hGall := all_isDigit_padDec 5 e.gen
+  have hAval := decVal_padDec 10 e.info hi
+  have hGval := decVal_padDec 5 e.gen (by omega)
+  rw [isDigit_eq_isDig] at hAall hGall
+  rw [decVal_eq_decOf] at hAval hGval
+  have hAlen := padDec_length 10 e.info
+  have hGlen := padDec_length 5 e.gen
+  unfold encEntry
+  generalize padDec 10 e.info = A at *
+  generalize padDec 5 e.gen = G at *
+  obtain ⟨a0, at0, ae0, ah0⟩ := len_succ (n := 9) hAlen
+  obtain ⟨a1, at1, ae1, ah1⟩ := len_succ (n := 8) ah0
+  subst ae1
+  obtain ⟨a2, at2, ae2, ah2⟩ := len_succ (n := 7) ah1
+  subst ae2
+  obtain ⟨a3, at3, ae3, ah3⟩ := len_succ (n := 6) ah2
+  subst ae3
+  obtain ⟨a4, at4, ae4, ah4⟩ := len_succ (n := 5) ah3
+  subst ae4
+  obtain ⟨a5, at5, ae5, ah5⟩ := len_succ (n := 4) ah4
+  subst ae5
+  obtain ⟨a6, at6, ae6, ah6⟩ := len_succ (n := 3) ah5
+  subst ae6
+  obtain ⟨a7, at7, ae7, ah7⟩ := len_succ (n := 2) ah6
+  subst ae7
+  obtain ⟨a8, at8, ae8, ah8⟩ := len_succ (n := 1) ah7
+  subst ae8
+  obtain ⟨a9, at9, ae9, ah9⟩ := len_succ (n := 0) ah8
+  subst ae9
+  have anil : at9 = [] := List.eq_nil_of_length_eq_zero ah9
+  subst anil
+  obtain ⟨g0, gt0, ge0, gh0⟩ := len_succ (n := 4) hGlen
+  obtain ⟨g1, gt1, ge1, gh1⟩ := len_succ (n := 3) gh0
+  subst ge1
+  obtain ⟨g2, gt2, ge2, gh2⟩ := len_succ (n := 2) gh1
+  subst ge2
+  obtain ⟨g3, gt3, ge3, gh3⟩ := len_succ (n := 1) gh2
+  subst ge3
+  obtain ⟨g4, gt4, ge4, gh4⟩ := len_succ (n := 0) gh3
+  subst ge4
+  have gnil : gt4 = [] := List.eq_nil_of_length_eq_zero gh4
+  subst gnil
+  subst ae0
+  subst ge0
+  have hflag : ((if e.inuse = true then (110 : UInt8) else 102) = 102 ∨ (if e.inuse = true then (110 : UInt8) else 102) = 110) := by
+    cases e.inuse <;> simp
+  have hfl : ((if e.inuse = true then (110 : UInt8) else 102) == 110) = e.inuse := by
+    cases e.inuse <;> simp
+  cases heol : e.eol <;>
+    (simp only [Eol.bytes, List.cons_append, List.nil_append, List.append_assoc]
+     rw [entryForm_lit, if_pos ⟨hAall, rfl, hGall, rfl, hflag, by simp, by omega⟩, hAval, hGval, hfl])
+
 end Parsley.C13
